@@ -38,16 +38,17 @@ class Attenuated(Job):
     max_paths = 20000
     max_seconds = 1500
 
-    def __init__(self, n, check, period, minmode=None, step=None, canary=None, steps=None, frac=False):
+    def __init__(self, n, check, period, minmode=None, step=None, canary=None, steps=None, frac=False, pfrac=False):
         self.n, self.check, self.period, self.minmode, self.step, self.canary = n, check, period, minmode, step, canary
         self.frac = frac            # time stamps carry a sub-second part
+        self.pfrac = pfrac          # test_period is a float number of seconds (eighths of a second)
         self.steps = steps          # concrete irregular steps (n-1 of them): the sampling step is their median
         if steps is not None:
             import statistics
             self.step = int(statistics.median(steps))
             step = f"irregular{tuple(steps)}"
         self.name = (f"attenuated n={n} check={check} period={'y' if period else 'n'} min={minmode}"
-                     + (f" step={step}s" if step else "") + (" sub-second stamps" if frac else "") + (f" CANARY={canary}" if canary else ""))
+                     + (f" step={step}s" if step else "") + (" sub-second stamps" if frac else "") + (" fractional test_period" if pfrac else "") + (f" CANARY={canary}" if canary else ""))
         if canary:
             self.expect_canary_sat = True
             self.validate_witnesses = False
@@ -76,7 +77,11 @@ class Attenuated(Job):
             S.t = V.times_increasing("t", n, max_step=2 ** 12, frac=self.frac)
         S.st = V.float("st", lo=0, hi=4096)
         S.ft = V.float("ft", lo=0, hi=4096)
-        S.P = V.int("P", 1, 2 ** 14) if self.period else None
+        if self.period and self.pfrac:
+            S.P = V.float("P", lo=1, hi=2 ** 10)
+            V.assume(z3.IsInt(S.P.v * 8))          # exact both in binary64 and in pandas' ns offsets
+        else:
+            S.P = V.int("P", 1, 2 ** 14) if self.period else None
         S.min_obs = V.int("min_obs", 0, n + 1) if self.minmode == "obs" else None
         S.min_period = V.int("min_period", 0, (n + 1) * (self.step or 1)) if self.minmode == "period" else None
         return S
@@ -126,9 +131,9 @@ class Attenuated(Job):
             need = S.min_period.v / self.step          # min_period divided by the (regular) sampling step
         else:
             need = iv(1)
-        if self.frac:
+        if self.frac or self.pfrac:
             tv = [z3.ToReal(t.s) + (t.f if getattr(t, "f", None) is not None else 0) for t in S.t]
-            P = z3.ToReal(S.P.v)
+            P = S.P.v if self.pfrac else z3.ToReal(S.P.v)
         else:
             tv = [t.s for t in S.t]
             P = S.P.v
@@ -184,6 +189,9 @@ def jobs(tier):
     # sub-second stamps: the window (t - P, t] is decided on the exact stamps, not on floored seconds
     out.append(Attenuated(3, "range", True, frac=True))
     out.append(Attenuated(2 if tier == "quick" else 3, "std", True, "obs", frac=True))
+    # test_period given as a float number of seconds
+    out.append(Attenuated(3, "range", True, pfrac=True))
+    out.append(Attenuated(2, "std", True, "obs", pfrac=True, frac=True))
     out.append(Attenuated(2, "default", False))
     out.append(Attenuated(2, "variance", False))
     out.append(Attenuated(2, "Range", True))
